@@ -13,10 +13,11 @@ MAX_BLOCKS = 400
 
 
 _PINNED = None
+_PINNED_TRAITS = None
 
 
 def _pinned():
-    global _PINNED
+    global _PINNED, _PINNED_TRAITS
     if _PINNED is None:
         import json
         import os
@@ -24,9 +25,12 @@ def _pinned():
         p = os.path.join(os.path.dirname(os.path.dirname(os.path.abspath(__file__))), "spec", "pinned_fns.json")
         try:
             with open(p) as fh:
-                _PINNED = set(json.load(fh)["fns"])
+                d = json.load(fh)
+            _PINNED = set(d["fns"])
+            _PINNED_TRAITS = set(d.get("traits", []))
         except Exception:
             _PINNED = set()
+            _PINNED_TRAITS = set()
     return _PINNED
 
 
@@ -38,9 +42,12 @@ def is_private_helper(j):
     v = j.get("vis")
     if bool(v) and str(v).startswith("Restricted"):
         return True
-    if j.get("from_expansion") or j.get("impl_trait"):
-        return False  # derive output / trait impl items are reached by dynamic resolution, not spliced
     pinned = _pinned()
+    if j.get("from_expansion"):
+        return False  # derive output
+    if j.get("impl_trait"):
+        # impl item of a crate-local trait the pinned tree does not have (a private extension trait): a helper
+        return bool(pinned) and bool(_PINNED_TRAITS) and j.get("impl_trait_crate") == "blsful" and j["impl_trait"] not in _PINNED_TRAITS and j["key"] not in pinned
     return bool(pinned) and j["key"] not in pinned
 
 
@@ -72,6 +79,17 @@ def _remap(x, lo, bo, po=0):
     return x
 
 
+def _target(t, helpers):
+    """Key of the helper a call terminator statically resolves to (direct key, or the resolved impl item)."""
+    c = t.get("callee") or {}
+    if c.get("key") in helpers:
+        return c["key"]
+    r = c.get("resolved") or {}
+    if r.get("key") in helpers:
+        return r["key"]
+    return None
+
+
 def _calls_self(j, key):
     for b in j["blocks"]:
         t = b["term"]
@@ -94,7 +112,7 @@ def inline_helpers(fns_json):
         if depth == 0 and key in done:
             return done[key]
         blocks = j["blocks"]
-        sites = [i for i, b in enumerate(blocks) if b["term"]["k"] == "call" and (b["term"].get("callee") or {}).get("key") in helpers and (b["term"].get("callee") or {}).get("key") not in stack]
+        sites = [i for i, b in enumerate(blocks) if b["term"]["k"] == "call" and _target(b["term"], helpers) is not None and _target(b["term"], helpers) not in stack]
         if not sites or depth >= MAX_DEPTH:
             return j
         nj = dict(j)
@@ -103,7 +121,7 @@ def inline_helpers(fns_json):
         nj["inlined"] = list(j.get("inlined", []))
         for i in sites:
             t = nj["blocks"][i]["term"]
-            hk = t["callee"]["key"]
+            hk = _target(t, helpers)
             h = expand(helpers[hk], depth + 1, stack | {hk})
             lo = len(nj["locals"])
             bo = len(nj["blocks"])
